@@ -78,7 +78,7 @@ func checkC04(c *Ctx) error {
 	c.Cov["disagreements"] = mism
 	c.Cov["configurations"] = cfgs
 	c.Cov["exhaustive"] = true
-	c.Cov["rule"] = fmt.Sprintf("for each of %d toolchain.yaml variants (of: (absent, empty, unreadable, partial, CRS-like as quoted and as block scalars, CRS-like in a file of another name selected with -f next to a hostile toolchain.yaml, hostile = patterns with a top-level alternation)) TLC enumerates every well-formed program of <= %s lines with unix/windows cmdline blocks over 14 command words (plain, dot, blank, trailing @ and ~, escaped markers, markers elsewhere) alone, next to entries and nested in assemble blocks; the expected language is the STRUCTURAL meaning of the statement (word characters with the anti-evasion pattern between any two, suffix patterns after a marker, each pattern one unit) on all strings over {a,x,.,blank,@} up to length 4; every program with a cmdline block is compiled by the real code with the real toolchain.yaml and language-compared; non-trivial = cmdline block with a non-empty configuration or a word with a marker, dot or blank", len(cfgs), lines)
+	c.Cov["rule"] = fmt.Sprintf("for each of %d toolchain.yaml variants (of: (absent, empty, unreadable, partial, CRS-like as quoted and as block scalars, CRS-like in a file of another name selected with -f next to a hostile toolchain.yaml, hostile = patterns with a top-level alternation)) TLC enumerates every well-formed program of <= %s lines with unix/windows cmdline blocks over 14 command words (plain, dot, blank, trailing @ and ~, escaped markers, markers elsewhere) and 2 verbatim lines (leading quote, one ending in a marker) alone, next to entries and nested in assemble blocks; the expected language is the STRUCTURAL meaning of the statement (word characters with the anti-evasion pattern between any two, suffix patterns after a marker, each pattern one unit) on all strings over {a,x,.,blank,@} up to length 4; every program with a cmdline block is compiled by the real code with the real toolchain.yaml and language-compared; non-trivial = cmdline block with a non-empty configuration or a word with a marker, dot or blank", len(cfgs), lines)
 	c.Summary = fmt.Sprintf("configs=%d programs=%d replayed=%d cli=%d", len(cfgs), seen, replayed, cli)
 	return nil
 }
